@@ -73,6 +73,21 @@ fn main() {
     let _ = std::io::stdout().write_all(&reply);
     let _ = std::io::stdout().flush();
 
+    // dies by a signal *after* a complete, flushed reply
+    match behaviour.as_str() {
+        "replykill" => unsafe {
+            libc::kill(libc::getpid(), libc::SIGKILL);
+        },
+        "replysegv" => unsafe {
+            libc::signal(libc::SIGSEGV, libc::SIG_DFL);
+            libc::kill(libc::getpid(), libc::SIGSEGV);
+        },
+        "replyterm" => unsafe {
+            libc::kill(libc::getpid(), libc::SIGTERM);
+        },
+        _ => {}
+    }
+
     if let Some(code) = behaviour.strip_prefix("exit") {
         std::process::exit(code.parse::<i32>().unwrap_or(1));
     }
